@@ -156,7 +156,7 @@ CLAIMED = {
        "matcher and checked by the oracle only; the patch clause executes vendor logics.",
   design="§5 C17", technique="Lean 4 proof (structural induction over rule trees) + differential correspondence"),
  "C02": dict(
-  text="Lean theorems over the model of apply_acl_diff / make_diff with ACL / _diff_and_patch with an ACL: (a, provenance "
+  text="PARTIAL proof (clause (b) under the hypothesis finding F02b shows necessary; the text reading of (a) is false of the code). Lean theorems over the model of apply_acl_diff / make_diff with ACL / _diff_and_patch with an ACL: (a, provenance "
        "form, end to end: C02_device_patch_provenance) every item of the patch tree, at every depth, stems from an entry of the "
        "ACL-filtered diff - it is the entry's row, the removal command of a REMOVED/MOVED entry or the commit of a %force_commit "
        "rule, nothing else can appear in a patch built by the common logics - and every such entry has a row the ACL matches at "
